@@ -1,6 +1,7 @@
 import XMT.Drv.Util
 import XMT.Keys
 import XMT.KeysPickWait
+import XMT.KeysConnDrv
 namespace XMT.Drv.C06
 open XMT XMT.Keys XMT.Drv
 
@@ -111,6 +112,11 @@ def handle (args : List String) : String :=
         | some (c, s) => s!"c={toHex c} s={toHex s}"
       else "bad-op"
     | _, _, _, _, _, _ => "bad-op"
+  -- per-connection key handling (XMT/KeysConn.lean; ops in XMT/KeysConnDrv.lean)
+  | "resolve" :: rest => KeysConnDrv.resolveOp rest
+  | "polls" :: rest => KeysConnDrv.pollsOp rest
+  | "chan" :: rest => KeysConnDrv.chanOp rest
+  | "fill2" :: rest => KeysConnDrv.fill2Op rest
   | _ => "bad-op"
 
 end XMT.Drv.C06
